@@ -960,11 +960,19 @@ func (fc *funcContext) makeReceiver(e *ast.SelectorExpr) *expression {
 		recvType = types.NewPointer(recvType)
 		x = fc.setType(&ast.UnaryExpr{Op: token.AND, X: x}, recvType)
 	}
+	var recv *expression
 	if isPointer && !pointerExpected {
-		x = fc.setType(x, methodsRecvType)
+		// A method with a value receiver is called through a pointer. The type
+		// recorded for x must not be overridden to say so: the table is shared
+		// by all instantiations of a generic function.
+		recv = fc.translateExpr(x)
+		switch methodsRecvType.Underlying().(type) {
+		case *types.Struct, *types.Array:
+			recv = fc.formatExpr("$clone(%s, %s)", recv, fc.typeName(methodsRecvType))
+		}
+	} else {
+		recv = fc.translateImplicitConversionWithCloning(x, methodsRecvType)
 	}
-
-	recv := fc.translateImplicitConversionWithCloning(x, methodsRecvType)
 	if isWrapped(recvType) {
 		// Wrap JS-native value to have access to the Go type's methods.
 		recv = fc.formatExpr("new %s(%s)", fc.typeName(methodsRecvType), recv)
